@@ -8,6 +8,7 @@ from vlib import Infra
 
 SUB, JUDGE = "stream-in", "StreamExtTrace"
 
+NW = min(16, vlib.NCPU)
 INVS = ("DeliveredIntact NoDupNoInvent NeverAhead AllDeliveredAtQuiescence ErrorAtMostOnce ErrorIffFailed PoolConservation")
 
 
@@ -42,10 +43,25 @@ def model(ctx):
     if r["violation"] != "DeliveredIntact":
         raise Infra("sensitivity: the aliasing model was expected to violate DeliveredIntact, got %r" % r["violation"])
     runs["alias_refuted"] = True
+    # refinement Stream => StreamExt, machine-checked: the events the rig logs for each action of Stream are fed to StreamExt's Step
+    # (the judge of the recorded executions) along every behaviour of Stream; StreamExt must accept all of them
+    rcfg = ("CONSTANTS PoolSize = %d NParsers = %d MaxChunk = %d Alias = %s UserShutdown = %s\nFrames <- %s\nFailAt <- %s\n"
+            "INIT RInit\nNEXT RNext\nINVARIANTS ExtAccepts FinalAccepts EndAccepts ShutdownSilent\nCHECK_DEADLOCK FALSE\n")
+    for label, args in ((("p2,f3,fail-anywhere,shutdown"), (2, 2, 3, "FALSE", "TRUE", "F3", "AllPos")),
+                        (("p2,f3dup,fail-anywhere"), (2, 2, 3, "FALSE", "FALSE", "F3dup", "AllPos"))) + \
+            (() if q else ((("p3,f3,any-chunk,fail-anywhere,shutdown"), (3, 3, 99, "FALSE", "TRUE", "F3", "AllPos")),)):
+        r = ctx.tlc("StreamRefineMC", rcfg % args, workers=NW, label="StreamRefine[%s]" % label, xmx="12g", timeout=3000)
+        if r["violation"]:
+            raise Infra("refinement Stream => StreamExt fails (%s): %s" % (label, r["violation"]))
+        runs["refine " + label] = r["distinct"]
+    r = ctx.tlc("StreamRefineMC", rcfg % (2, 2, 3, "TRUE", "FALSE", "F3", "NoFail"), workers=1, label="StreamRefine[alias]", xmx="4g")
+    if r["violation"] not in ("FinalAccepts", "ExtAccepts"):
+        raise Infra("sensitivity: StreamExt was expected to reject the aliasing model, got %r" % r["violation"])
+    runs["refine_alias_refuted"] = True
     ctx.extra["model"] = runs
 
 
-NW = min(16, vlib.NCPU)
+
 SIZES = [8, 12, 13, 16, 20, 64, 255, 256, 257, 260, 300, 511, 512, 513, 1000, 2047, 2048, 2049, 2052, 3000, 4096, 6000]
 KINDS = ["error", "error", "echo", "flowmod", "hello", "barrier", "packetin", "error", "packetin"]
 
@@ -167,7 +183,10 @@ def run(ctx):
         ctx, "model_checking",
         "TLC checks Stream.tla (one action per channel operation of util/stream.go) exhaustively for pool 2 / 2 parsers / 3 frames / "
         "chunks <= 3 without failure (7 invariants + liveness) and with a failure after every byte and application shutdown%s; the "
-        "aliasing variant is refuted. Schedules simulated from the same specification with the real constants (pool 50, 25 parsers, "
+        "aliasing variant is refuted. The refinement Stream => StreamExt (the event-level specification the recorded executions are "
+        "validated against) is machine-checked: StreamRefine.tla feeds the events of every action to StreamExt's Step along every "
+        "behaviour and TLC checks that all are accepted, incl. the final re-observations and End in terminal states; with aliasing "
+        "StreamExt rejects. Schedules simulated from the same specification with the real constants (pool 50, 25 parsers, "
         "90-120 frames, chunks <= 40 bytes incl. splits inside the length prefix, slow-consumer phases, failures, shutdown) are imposed "
         "on the real MessageStream through a scripted net.Conn, a gating Parser and a token-driven consumer; randomly scheduled and "
         "free-running executions (frames 8 B - 6 KiB, byte-wise / k-byte / prefix-splitting chunkings, trailing partial frames, more jumbo frames than pool buffers, "
